@@ -406,4 +406,213 @@ def k5(ctx, kr):
     kr.exhaustive = True
     kr.outside = ['programs other than the template shapes']
 
-KERNELS = [k1, k4, k3, k5]
+# ---------------------------------------------------------------------------------------------- K2 the generated traversal visits every child of every node, once, in order, and hands errors up
+def _ignored_fields():
+    """(type name, field name) pairs marked #[recurse(ignore)] in the dsl sources of the current tree"""
+    import os, glob
+    from mirsym import dump
+    out = set()
+    for f in glob.glob(os.path.join(dump.COMPILER, 'dsl', 'src', '*.rs')):
+        src = open(f).read()
+        for m in re.finditer(r'pub (?:struct|enum) (\w+)[^{;]*\{(.*?)\n\}', src, re.S):
+            ign = False
+            for line in m.group(2).split('\n'):
+                line = line.strip()
+                if line.startswith('#[recurse(ignore)]'): ign = True; continue
+                mm = re.match(r'(?:pub )?([a-z_][a-z_0-9]*)\s*:', line)
+                if mm:
+                    if ign: out.add((m.group(1), mm.group(1)))
+                    ign = False
+                elif line and not line.startswith('//') and not line.startswith('#['): ign = False
+    return out
+
+_VT = {}
+def _variant_types():
+    """(enum name, variant name) -> list of payload type texts, read from the dsl sources of the current tree"""
+    if _VT: return _VT
+    import os, glob
+    from mirsym import dump
+    for f in glob.glob(os.path.join(dump.COMPILER, 'dsl', 'src', '*.rs')):
+        src = open(f).read()
+        for m in re.finditer(r'pub enum (\w+)[^{;]*\{(.*?)\n\}', src, re.S):
+            for line in m.group(2).split('\n'):
+                line = line.strip()
+                mm = re.match(r'([A-Z]\w*)\((.*)\),?$', line)
+                if mm:
+                    # split the payload on top-level commas
+                    parts = []; depth = 0; cur = ''
+                    for ch in mm.group(2):
+                        if ch in '<(': depth += 1
+                        if ch in '>)': depth -= 1
+                        if ch == ',' and depth == 0: parts.append(cur.strip()); cur = ''
+                        else: cur += ch
+                    if cur.strip(): parts.append(cur.strip())
+                    _VT[(m.group(1), mm.group(1))] = parts
+    return _VT
+
+def _k2_job(job):
+    tnames = job
+    ctx = _CTX; part = Part()
+    P = ctx.program(['ironplc-dsl'])
+    ignored = _ignored_fields()
+    for tname in tnames:
+        ks = [k for k in P.items if k[0] == 'ironplc-dsl' and k[1].endswith('::recurse_visit') and P.items[k].locals[P.items[k].args[0]].split('::')[-1] == tname]
+        if len(ks) != 1: part.inconc('%s::recurse_visit: %d candidates' % (tname, len(ks))); continue
+        key = ks[0]
+        log = []; st = {}
+        def stub_visit(M, fr, callee, a):
+            v = a[1]
+            while isinstance(v, Ref): v = M.deref(v)
+            tag = v.tag if isinstance(v, Opaque) else repr(v)[:40]
+            idx = len(log); log.append(tag)
+            if M.branch(st['fail'] == idx): return err(Opaque(('error-from', idx)))
+            return ok(UNIT)
+        M = Machine(P, stubs={r'^<V as visitor::Visitor<E>>::visit_\w+$': stub_visit, r"^<<V as visitor::Visitor<E>>::Value as std::default::Default>::default$": lambda M_, fr, c, a: UNIT})
+        def leaf(label): return Opaque(('node', label))
+        def value_for(ty, label):
+            ty = ty.strip()
+            m = re.fullmatch(r'Vec<(.*)>', ty)
+            if m:
+                v0, l0 = value_for(m.group(1), label + '[0]'); v1, l1 = value_for(m.group(1), label + '[1]')
+                return VecV([v0, v1]), l0 + l1
+            m = re.fullmatch(r'Option<(.*)>', ty)
+            if m:
+                v, labs = value_for(m.group(1), label); return some(v), labs
+            m = re.fullmatch(r'Box<(.*)>', ty)
+            if m:
+                v, labs = value_for(m.group(1), label); return Ref(Cell(v)), labs
+            return leaf(label), [label]
+        cases = []
+        if tname in P.structs:
+            fs = []; want = []
+            for f, ty in P.structs[tname]:
+                v, labs = value_for(ty, f); fs.append(v)
+                if (tname, f) not in ignored: want += labs
+            cases.append((tname, Agg(tname, fs), want))
+        elif tname in P.enums:
+            for vi, vn in enumerate(P.enums[tname]):
+                n = P.enum_payload.get(tname, {}).get(vn, 0)
+                if n == 0: cases.append(('%s::%s' % (tname, vn), EnumV(tname, vi, []), []))
+                else:
+                    ptys = _variant_types().get((tname, vn))
+                    if ptys is None or len(ptys) != n: part.inconc('payload types of %s::%s unknown' % (tname, vn)); continue
+                    vals = []; want = []
+                    for j, pty in enumerate(ptys):
+                        v, labs = value_for(pty, '%s.%d' % (vn, j)); vals.append(v); want += labs
+                    cases.append(('%s::%s' % (tname, vn), EnumV(tname, vi, vals), want))
+        else: part.inconc('layout of %s unknown' % tname); continue
+        for cname, val, want in cases:
+            def entry(M):
+                log.clear()
+                f_ = M.fresh_bv('fail_at', 8); M.declare_domain(f_, list(range(len(want) + 1))); st['fail'] = f_
+                return M.call_fn(key, [Ref(Cell(deep_clone(val))), Ref(Cell(Agg('RecordingVisitor', [])))])
+            def on_path(M, pr):
+                part.paths += 1
+                if pr.inconclusive: part.inconc('%s: %s' % (cname, pr.inconclusive)); return
+                part.nontrivial += 1
+                if pr.panic: part.add('C02/K2/%s/panic' % cname, 'recurse_visit of %s panics: %s' % (cname, pr.panic.msg[:60]), {'node': cname}, None); return
+                got = [t[1] if isinstance(t, tuple) else t for t in log]
+                s = z3.Solver(); s.add(*pr.pc); s.check(); fa = s.model().eval(st['fail'], True).as_long(); part.queries += 1
+                res = pr.result
+                if fa >= len(want):
+                    if got != want:
+                        missing = [w for w in want if w not in got]
+                        part.add('C02/K2/%s/%s' % (cname, 'child-not-visited' if missing else 'order-or-count'), 'the generated traversal of %s visits %s; its declaration has the children %s (fields marked #[recurse(ignore)] excluded)' % (cname, got, want),
+                                 {'node': cname, 'visited': got, 'declared': want}, None)
+                    elif res.disc != 0: part.add('C02/K2/%s/spurious-error' % cname, 'the traversal of %s returns Err although every child returned Ok' % cname, {'node': cname}, None)
+                else:
+                    if res.disc != 1: part.add('C02/K2/%s/error-swallowed' % cname, 'child %s of %s returns Err but the traversal returns Ok (a rule\'s finding inside that child is lost)' % (want[fa] if fa < len(want) else fa, cname), {'node': cname, 'failing_child': fa}, None)
+                if len(part.samples) < 1: part.samples.append({'node': cname, 'visited': got})
+            M.explore(entry, on_path)
+        part.queries += M.stats['smt']; part.encoded |= set(M.encoded); part.models |= set(M.models_used)
+    return part
+
+@kernel('K2 recurse.traversal_completeness')
+def k2(ctx, kr):
+    global _CTX
+    _CTX = ctx
+    P = ctx.program(['ironplc-dsl'])
+    tnames = sorted({P.items[k].locals[P.items[k].args[0]].split('::')[-1] for k in P.items if k[0] == 'ironplc-dsl' and k[1].endswith('::recurse_visit')})
+    kr.bounds = ('every node type of ironplc-dsl with a derive(Recurse) traversal (%d types; every variant of the enumerations): recurse_visit from the MIR with a recording visitor whose k-th call fails for a symbolic k: '
+                 'every child that is not marked #[recurse(ignore)] is visited exactly once, in declaration order (two elements per Vec, the value of an Option, the content of a Box), and an Err of a child is returned' % len(tnames))
+    chunks = [tnames[i::14] for i in range(14)]
+    for part in par_map(_k2_job, [c for c in chunks if c]): merge_part(kr, part)
+    kr.functions = fn_paths(P, getattr(kr, '_enc', set()))[:150]
+    kr.stubs = ['<V as Visitor<E>>::visit_* = recording stub (returns Ok, or Err at a symbolic call index)']
+    kr.exhaustive = True
+    kr.notes.append('findings of this kernel have no end-to-end replay: they are printed as UNCONFIRMED (inconclusive) unless a rule-level kernel (K1, K5) shows the effect')
+    kr.outside = ['hand-written visit_* overrides of the rules (K1, K5); the Fold traversal (C05-K4)']
+
+# ---------------------------------------------------------------------------------------------- K2b a visitor that only overrides visit_id reaches every identifier of a parsed library
+def _k2b_job(job):
+    name, prefixes = job
+    from . import C10 as K10, C01 as K01, tplcommon as TP
+    ctx = _CTX; part = Part(); tpl = K01._all_templates()[name]
+    P = ctx.program()
+    k_parse = P.find_fn('ironplc-parser', 'parse_program'); k_opt = TP.parse_opts(P)
+    k_walk = [k for k in P.items if k[0] == 'ironplc-dsl' and k[1] == 'visitor::Visitor::walk']
+    if len(k_walk) != 1: part.inconc('Visitor::walk default: %d candidates' % len(k_walk)); return part
+    log = []; st = {}
+    def st_id(M, fr, c, a):
+        v = a[1]
+        while isinstance(v, Ref): v = M.deref(v)
+        log.append(v.f[0].conc() if isinstance(v, Agg) and isinstance(v.f[0], Str) else '?'); return ok(UNIT)
+    stubs = K10.dyn_lexer_stubs(ctx, {}); stubs.update({r'visitor::Visitor<.*>>::visit_id$|visitor::Visitor::visit_id$': st_id, r"Value as std::default::Default>::default$": lambda M_, fr, c, a: UNIT})
+    M = Machine(P, stubs=stubs, max_steps=400_000_000)
+    def entry(M):
+        choice, texts, text0 = TP.choose_shape(M, tpl)
+        text, expect = K01._uniquify(ctx, text0); st['src'] = text; st['choice'] = choice; log.clear()
+        fid = Ref(Cell(Agg('FileId', [Str('f.st')])))
+        opts = Ref(Cell(M.call_fn(k_opt[0], []) if k_opt else Agg('ParseOptions', [False])))
+        r1 = M.call_fn(k_parse, [Ref(Cell(Str(text))), fid, opts])
+        if r1.disc != 0: return None
+        inlib = []; K01._ids_in_order(M, r1.f[0], inlib)
+        w = M.call_fn(k_walk[0], [Ref(Cell(Agg('RecordingVisitor', []))), Ref(Cell(r1.f[0]))])
+        return (inlib, list(log), w.disc)
+    def on_path(M, pr):
+        part.paths += 1
+        if pr.inconclusive: part.inconc('%s: %s' % (name, pr.inconclusive)); return
+        if pr.panic: part.inconc('%s: panic %s' % (name, pr.panic.msg[:50])); return
+        if pr.result is None: return
+        part.nontrivial += 1
+        inlib, seen, disc = pr.result
+        a = sorted(x for x in inlib if re.fullmatch(r'nm\d+q', x)); b = sorted(x for x in seen if re.fullmatch(r'nm\d+q', x))
+        src = st['src']
+        if a != b:
+            lost = sorted(set(x for x in a if a.count(x) > b.count(x))); twice = sorted(set(x for x in b if b.count(x) > a.count(x)))
+            where = [re.sub(r'\s+', ' ', src[max(0, src.find(x) - 25):src.find(x) + 12]) for x in lost[:2]]
+            part.add('C02/K2b/%s/%s' % (name, 'identifier-not-reached' if lost else 'identifier-reached-twice'), 'template %s shape %s: a visitor with the default methods does not reach the identifiers %s (near %s); reached twice: %s' % (name, list(st['choice']), lost, where, twice),
+                     {'source': src, 'not_reached': lost, 'reached_twice': twice}, ('visit_ids', (src,)))
+        elif len(part.validate) < 1: part.validate.append(('visit_ids', (src,)))
+        if len(part.samples) < 1: part.samples.append({'template': name, 'identifiers': len(a)})
+    M.explore(entry, on_path, prefixes=prefixes)
+    part.queries += M.stats['smt']; part.encoded = set(M.encoded); part.models = set(M.models_used)
+    return part
+
+@replay_factory('visit_ids')
+def _replay_visit_ids(src):
+    def rp(ctx):
+        r = ctx.replay({'cmd': 'visit_ids', 'source': src})
+        if 'panic' in r: return True, r
+        if not r.get('ok'): return None, r
+        want = sorted(re.findall(r'nm\d+q', src)); got = sorted(x for x in r['ids'] if re.fullmatch(r'nm\d+q', x))
+        return want != got, {'source': src[-300:], 'identifiers_written': len(want), 'identifiers_reached': len(got), 'not_reached': sorted(set(want) - set(got))[:6]}
+    return rp
+
+@kernel('K2b visitor.walk_reaches_every_identifier')
+def k2b(ctx, kr):
+    global _CTX
+    _CTX = ctx
+    from . import C01 as K01, tplcommon as TP
+    T = K01._all_templates()
+    names = list(T) if ctx.tier != 'quick' else [n for n in T if n in ('nested_statements', 'call_arguments', 'expressions_names', 'initialisers', 'struct_and_enum_types', 'sfc_elements', 'configuration_elements', 'pou_kinds', 'case_many_selectors', 'variable_lists',
+                                                                        'fb_call', 'function_call', 'case_statement', 'loops', 'var_kinds', 'configuration')]
+    kr.bounds = ('%d source templates with symbolic shape selectors and unique identifiers (as C01-K6): parse_program on the MIR, then Visitor::walk with the trait\'s default methods and derive(Recurse) traversals from the MIR and a visitor that only records visit_id: '
+                 'every identifier of the library is reached exactly once' % len(names))
+    for part in par_map(_k2b_job, TP.jobs_for(T, names)): merge_part(kr, part)
+    P = ctx.program()
+    kr.functions = fn_paths(P, getattr(kr, '_enc', set()))[:150]
+    kr.exhaustive = True
+    kr.outside = ['constructs not in the templates; visitors with their own overrides (the rules: K1, K5)']
+
+KERNELS = [k1, k4, k3, k5, k2, k2b]
